@@ -3,6 +3,7 @@
 From Spl Require Export Judge.Dump.
 From Spl Require Model.Lifecycle Model.Doc.
 From Spl Require Judge.RunCodec.
+From Spl Require Judge.RunHist.
 From Spl Require Judge.RunBroker.
 From Spl Require Judge.RunGrammar.
 From Spl Require Judge.RunSem.
@@ -173,6 +174,7 @@ Definition judge_run (cmd : list N) : list N :=
   | 9 :: args => RunFmt.run_fmt args
   | 14 :: args => run_incparse args
   | 15 :: args => run_parse_via_inc args
+  | 17 :: args => RunHist.run_hist args
   | 10 :: args => RunGrammar.run_grammar args
   | 11 :: args => RunCodec.run_codec (1 :: args)
   | 12 :: args => RunCodec.run_codec (2 :: args)
